@@ -176,7 +176,33 @@ def lean_nats(bs):
     return "[" + ", ".join(str(b) for b in bs) + "]"
 
 
-def translate_meta_aad(body, buf="aad"):
+def local_names(body, sig, types):
+    """Names of the parameters with the given (squashed) types, and of the `let mut <buf> = Vec::…` buffer."""
+    names = []
+    for ty in types:
+        m = re.search(r"(\w+)\s*:\s*" + re.escape(ty).replace(r"\ ", r"\s*") + r"\s*[,)]", sig + ")")
+        if not m:
+            die(f"parameter of type {ty} not found in `{norm(sig)[:80]}`")
+        names.append(m.group(1))
+    m = re.search(r"let\s+mut\s+(\w+)\s*(?::\s*Vec<u8>)?\s*=\s*Vec::", body)
+    if not m:
+        die("no `let mut <buf> = Vec::…` buffer")
+    return names, m.group(1)
+
+
+def canon(text, mapping):
+    """Renames locals to the canonical names the patterns below use (whole identifiers only)."""
+    for old, new in mapping.items():
+        if old != new:
+            if re.search(r"\b" + re.escape(new) + r"\b", text):
+                die(f"cannot canonicalise local `{old}` to `{new}`: `{new}` is also in use")
+            text = re.sub(r"\b" + re.escape(old) + r"\b", new, text)
+    return text
+
+
+def translate_meta_aad(body, sig, buf="aad"):
+    (loc, meta), b = local_names(body, sig, ["&Path", "&Metadata"])
+    body = canon(body, {b: "aad", loc: "location", meta: "meta"})
     items = []
     for st in split_statements(body):
         s = squash(st)
@@ -238,8 +264,10 @@ def translate_meta_aad(body, buf="aad"):
 
 def translate_chunk_aad(body, sig):
     params = re.findall(r"(\w+)\s*:\s*u64", sig)
-    if params != ["chunk_size", "chunk_index"]:
-        die(f"chunk_aad: expected parameters (chunk_size: u64, chunk_index: u64), found {params}")
+    if len(params) != 2:
+        die(f"chunk_aad: expected two u64 parameters (chunk size, chunk index), found {params}")
+    _, b = local_names(body, sig, [])
+    body = canon(body, {b: "aad", params[0]: "chunk_size", params[1]: "chunk_index"})
     items = []
     for st in split_statements(body):
         s = squash(st)
@@ -411,8 +439,8 @@ def main():
     except OSError as e:
         die(f"cannot read {path}: {e}")
 
-    body, _ = fn_body(src, "metadata_auth_aad")
-    layout = translate_meta_aad(body)
+    body, msig = fn_body(src, "metadata_auth_aad")
+    layout = translate_meta_aad(body, msig)
     cbody, csig = fn_body(src, "chunk_aad")
     chunk_layout = translate_chunk_aad(cbody, csig)
     shapes = {}
